@@ -285,6 +285,9 @@ class C12(Check):
                   M.read_fits_polygons, M.read_mangle_polygons, M.angles_to_x, M.ManglePolygon.__init__,
                   W.window_read):
             self.reach.add(f)
+        self.brd.per_case = 3
+        for n in ('is_in_cap', 'is_in_polygon', 'is_in_window'):
+            self.brd.attach(self.rec, M, n, every=3, own=True)              # buffer-reuse differential (vlib/brd.py)
         for n in ('is_in_cap', 'is_in_polygon', 'is_in_window', 'set_use_caps', 'read_fits_polygons',
                   'read_mangle_polygons'):
             self.rec.wrap(M, n)
